@@ -64,13 +64,13 @@ macro_rules! base64_harness {
     };
 }
 
-// @harness id=c20_base64_roundtrip_2 props=C20,C01:thorough tier=quick cap=1500
+// @harness id=c20_base64_roundtrip_2 props=C20,C01:thorough tier=thorough cap=1500
 // @desc encode_base64 / decode_base64 (std.base64, std.base64Decode(Bytes)) on every 2-byte input: the encoding is canonical RFC 4648 (4 characters per started group, alphabet only, one `=`), and decoding it returns the input
 // @bound all 65 536 two-byte inputs
 // @funcs stdlib::encode_base64, stdlib::decode_base64
 base64_harness!(c20_base64_roundtrip_2, 2, 66);
 
-// @harness id=c20_base64_roundtrip_3 props=C20 tier=quick cap=1500
+// @harness id=c20_base64_roundtrip_3 props=C20 tier=thorough cap=1500
 // @desc as c20_base64_roundtrip_2 for every 3-byte input (no padding)
 // @bound all 2^24 three-byte inputs
 // @funcs stdlib::encode_base64, stdlib::decode_base64
